@@ -417,7 +417,7 @@ Definition bd_diverge (c : cfg) (name : bytes) : cfg * option value := (set_abor
 Definition build_dir (E : env) (T : tables) (c : cfg) (name : bytes) : cfg * option value :=
   let '(c1, r) := sinterp_str (t_depth_limit T) false (lookup E T bd_diverge false) c running_tmpl in
   match r with
-  | IErr e => (add_diag c1 (mk_diag P_none 0 (M_interp e)), None)
+  | IErr e => (add_diag c1 (mk_diag (ipath T) 0 (M_interp e)), None)
   | IOk path =>
       match e_file E path with
       | F_noopen => (c1, None)
@@ -527,7 +527,7 @@ Section Parse.
         | dir =>
             let '(c2, ir) := cfg_interp E T c1 dir in
             match ir with
-            | IErr e => (R_error, add_diag c2 (mk_diag P_none (tk_lno tk) (M_interp e)), r)
+            | IErr e => (R_error, add_diag c2 (mk_diag (ipath T) (tk_lno tk) (M_interp e)), r)
             | IOk path =>
                 match e_dir E path with
                 | DS_err n => (R_error, add_diag c2 (lexerr (tk_lno tk) (M_dir_error path n)), r)
@@ -602,7 +602,7 @@ Section Parse.
         let c2 := cfg_append c1 name (VList (regress_env_ref :: l)) in
         let '(c3, ir) := cfg_interp_early E T c2 (36 :: 123 :: name ++ [125]) in
         match ir with
-        | IErr e => (false, add_diag c3 (mk_diag P_none 0 (M_interp e)), r)
+        | IErr e => (false, add_diag c3 (mk_diag (ipath T) 0 (M_interp e)), r)
         | IOk str => (true, set_vars c3 (set_nth (c_vars c3) idx (VStr str)), r)
         end
     | _ => (false, c1, r)
